@@ -304,6 +304,19 @@ def cases(seed, tier, model_tuples=None):
         c = make_case(rng, big, "inline" if chain else "none", chain, False, "sparse", file="/w/src/big.js")
         c["name"] = "big/%s" % chain
         out.append(c)
+    # the reader production code uses, pointed at things that are not regular files: a reference must never make the
+    # call hang or exhaust memory (a FIFO nobody writes to, an endless device, a directory)
+    specials = os.path.join(vlib.WORK, "specials")
+    os.makedirs(specials, exist_ok=True)
+    fifo = os.path.join(specials, "never-written.map")
+    if not os.path.exists(fifo):
+        os.mkfifo(fifo)
+    for target in (fifo, "/dev/zero", specials, "/dev/null", "/proc/self/mem"):
+        code = LAYOUT_TEMPLATES[0] + "//# sourceMappingURL=" + target + "\n"
+        for chain in (True, False):
+            out.append({"code": code, "file": "/w/src/app.js", "config": dict(sp.FULL_CFG, chainSourceMap=chain, comments=False),
+                        "reader": {"real": True, "parent": "default", "files": {}}, "kind": "missing", "usable": False, "otoks": [],
+                        "ref": "//# sourceMappingURL=" + target, "name": "special/%s/%s" % (target, chain)})
     # unusual but legal file names (a backslash is an ordinary character on a '/'-separated host; names that
     # look like V8's virtual ones): the map's only source is still the base name, every position resolves
     for fn in ["/srv/app/generated\\join.js", "dist\\join.js", "<anonymous>", "<eval>/join.js", "/srv/app/lib/<generated>.js",
